@@ -77,6 +77,8 @@ def harness(L, sw, ch, sr, K, mode, group):
                 runs = {}
                 stage = "region"
                 runs["region"] = list(core.split(core.AudioRegion(data, sr, sw, ch), analysis_window=aw, validator=mkval(), **skw))
+                stage = "region with start"
+                runs["region with start"] = list(core.split(core.AudioRegion(data, sr, sw, ch, start=SymRat(I("in_start"), 1000)), analysis_window=aw, validator=mkval(), **skw))
                 stage = "region.split"
                 runs["region.split"] = list(core.AudioRegion(data, sr, sw, ch).split(analysis_window=aw, validator=mkval(), **skw))
                 stage = "source"
@@ -239,6 +241,7 @@ def replay_fn(c):
         if c["group"] == "containers":
             runs["AudioRegion"] = lambda: ak.split(ak.AudioRegion(data, sr, sw, ch), analysis_window=aw, validator=val(), **skw)
             runs["AudioRegion.split"] = lambda: ak.AudioRegion(data, sr, sw, ch).split(analysis_window=aw, validator=val(), **skw)
+            runs["AudioRegion that has a start time"] = lambda: ak.split(ak.AudioRegion(data, sr, sw, ch, start=2.5), analysis_window=aw, validator=val(), **skw)
             runs["AudioSource"] = lambda: ak.split(rio.BufferAudioSource(data, sr, sw, ch), analysis_window=aw, validator=val(), **skw)
             runs["AudioReader"] = lambda: ak.split(ak.AudioReader(data, block_dur=aw, sr=sr, sw=sw, ch=ch), validator=val(), **skw)
             for lazy in (False, True):
